@@ -32,8 +32,22 @@ def hist(prop, focus=None, q=400, t=20000, s=3000):
                 search=[('hist', ['-n', s, '-scans', 12] + f)])
 
 
+HOOK_COMMITS = ['8b60f71']
+FIX_COMMITS = ['4e44fa6 (C04)', '1c752d6 (C02)', '0ec6acc (C18)', 'a3c0a98 (C20)', 'be6e20c (C16)', '839495b (C07)']
+NOT_YET = {}
+
+LEVEL_NOTE = ('Trusted: Lean kernel + axioms propext/Classical.choice/Quot.sound; the hand-written model (lean/Esc) and the '
+              'statement of the theorems; the correspondence harness (simulated k8s/AWS, canonicalisation, generator reach); '
+              'the go/ast extractor. Modelled, not verified: informers, leader election, metrics, logging, AWS session/SDK shapes.')
+
 PROPS = {
     'C01': dict(level='proof', module='EscProofs.P.C01', streams=hist('C01'),
+                technique='Lean 4 theorem over an executable model (journal soundness by induction over node lists, lifted to histories) + differential correspondence and runtime monitor on the real code',
+                level_text='Theorems C01_scan_partial / C01_history_partial: for every configuration with non-negative grace periods, controller state, view, clocks, '
+                           'ordering and environment responses, along every history with restarts, each terminate/delete call of the model is backed by an eligible node of that '
+                           "scan's view; partial because taint values above 2^63-1-62135596800 are excluded (C01_full_fails proves the full statement false: finding T1). "
+                           'The model is tied to the code by the hist correspondence (projection: removal calls) and the same predicate is monitored on the observed journals.',
+                level_note=LEVEL_NOTE,
                 aspects=['removals'], monitors=['C01'],
                 theorems=['Esc.P.C01_scan_partial', 'Esc.P.C01_history_partial', 'Esc.P.C01_unreadable', 'Esc.P.C01_untainted', 'Esc.P.C01_cordoned',
                           'Esc.P.C01_full_fails']),
